@@ -29,13 +29,14 @@ RULE = ("one unit = one writer configuration (FileAccessor flat/deep x gzip "
         "of every name through accessors of all 4 layouts are compared with "
         "a last-write-wins dict model, and the tree with the documented "
         "paths. Names family: every single name and ordered pair of 10 "
-        "names with dots, nested directories and colons, looked up (all ten) "
+        "names with dots (also '..' inside a component), nested directories and colons, all looked up "
         "by readers of every layout, together with directory names that must "
         "not exist as files, and name/nested-name pairs on gzip layouts. "
         "Contents family: payloads starting with the gzip magic, gzip streams "
         "as payloads, payloads beyond 1 MiB and 2 MiB. URL family: 6 directory names (spaces, non-ASCII, %, +, nested) x "
-        "5 spellings (path, file://, file://localhost, precomputed://file://, "
-        "precomputed://path) for the writer x 5 for the reader. Confinement: 14 name spellings x {store, fetch, exists} x "
+        "6 spellings (path, file:// fully quoted, file:// with a literal '+', "
+        "file://localhost, precomputed://file://, precomputed://path) for "
+        "the writer x 6 for the reader. Confinement: 14 name spellings x {store, fetch, exists} x "
         "both accessor classes with a sentinel sibling directory. "
         "Non-trivial states: >= 2 names present or a name overwritten.")
 ASSUMPTIONS = [
@@ -514,7 +515,7 @@ def _eval_confinement(col, cfg):
 # are left out: "X.gz" is by design where a compressed "X" is stored
 NAME_ALPHA = ["labels", "labels.v2", "seg.left.frag", "seg.left",
               "a.b/c.d", "a.b/c", "mesh/7:0.x", "mesh/7:0", "v1.0/info",
-              "noext"]
+              "noext", "notes..txt", "..hidden", "mesh/7:0..3", "a...b/c"]
 
 
 # directories that exist once a nested name or a chunk has been stored:
@@ -604,6 +605,7 @@ def url_spellings(path):
     from urllib.parse import quote
     q = quote(path)
     return [("path", path), ("file-url", "file://" + q),
+            ("file-url-literal-plus", "file://" + quote(path, safe="/+")),
             ("file-localhost", "file://localhost" + q),
             ("precomputed-file", "precomputed://file://" + q),
             ("precomputed-path", "precomputed://" + path)]
@@ -622,7 +624,7 @@ def _eval_urls(col):
         os.chdir(root)          # stray relative paths stay in the sandbox
         n = 0
         for dname in DATASET_DIRS:
-            for wi in range(5):
+            for wi in range(len(url_spellings("/x"))):
                 n += 1
                 holder = os.path.join(root, "h%d" % n)
                 d = os.path.join(holder, dname)
